@@ -124,7 +124,7 @@ def make_msgdict(type_, overrides):
     if type_ in SPEC_BY_TYPE:
         spec = SPEC_BY_TYPE[type_]
     else:
-        raise LookupError(f'Unknown message type {type_!r}')
+        raise ValueError(f'Unknown message type {type_!r}')
 
     msg = {'type': type_, 'time': DEFAULT_VALUES['time']}
 
